@@ -435,6 +435,28 @@ func evalPlanner(c PCase) (problems []string, n int) {
 		}
 	}
 	changes, err := d.Diff.SchemaDiff(from, to, schema.DiffNormalized())
+	if c.Kind == "unnamed" {
+		// constraints added without a name (the database generates one): the change list is written
+		// by hand, as a program using the planner directly would.
+		t := dfu.T(from, "t")
+		var sub []schema.Change
+		for _, n := range c.Edits {
+			switch n {
+			case "index":
+				sub = append(sub, &schema.AddIndex{I: schema.NewIndex("").AddColumns(dfu.C(t, "z0"))})
+			case "unique":
+				sub = append(sub, &schema.AddIndex{I: schema.NewUniqueIndex("").AddColumns(dfu.C(t, "z0"))})
+			case "fk":
+				pt := dfu.T(from, "p")
+				sub = append(sub, &schema.AddForeignKey{F: schema.NewForeignKey("").SetTable(t).AddColumns(dfu.C(t, "z0")).SetRefTable(pt).AddRefColumns(pt.Columns[0])})
+			case "check":
+				sub = append(sub, &schema.AddCheck{C: schema.NewCheck().SetExpr("z0 > 0")})
+			case "column": // a named change next to it: its reverse must survive or the plan be irreversible
+				sub = append(sub, &schema.AddColumn{C: schema.NewIntColumn("zz", "int")})
+			}
+		}
+		changes, err = []schema.Change{&schema.ModifyTable{T: t, Changes: sub}}, nil
+	}
 	if err != nil || len(changes) == 0 {
 		return nil, 0
 	}
@@ -521,6 +543,15 @@ func evalPlanner(c PCase) (problems []string, n int) {
 			}
 		}
 	}
+	// a reverse statement names what it drops (a constraint the database named cannot be undone by text).
+	for _, ch := range plan.Changes {
+		rs, _ := ch.ReverseStmts()
+		for _, r := range rs {
+			if reDropNothing.MatchString(r) {
+				bad("reverse statement drops a constraint without naming it: %q (forward: %s)", r, ch.Cmd)
+			}
+		}
+	}
 	// a reverse undoes the whole statement: an ALTER TABLE of k clauses is reversed by k clauses.
 	for _, ch := range plan.Changes {
 		k := alterClauses(ch.Cmd)
@@ -551,6 +582,8 @@ func evalPlanner(c PCase) (problems []string, n int) {
 	}
 	return problems, len(plan.Changes)
 }
+
+var reDropNothing = regexp.MustCompile("(?i)\\bDROP\\s+(INDEX|KEY|FOREIGN\\s+KEY|CONSTRAINT|CHECK)\\s*(,|;|$|``|\"\")")
 
 var reNoParts = regexp.MustCompile("(?i)\\b(INDEX|KEY)\\s+(`[^`]+`|\"[^\"]+\")\\s*\\(\\s*\\)")
 
@@ -688,6 +721,9 @@ func plannerCases(tier string) []PCase {
 		}
 		for _, ind := range []string{"", "  "} {
 			cs = append(cs, PCase{dn, "create_all", nil, ind}, PCase{dn, "drop_all", nil, ind})
+			for _, u := range [][]string{{"index"}, {"unique"}, {"fk"}, {"check"}, {"index", "fk"}, {"column", "index"}, {"fk", "column"}, {"column", "check", "unique"}} {
+				cs = append(cs, PCase{dn, "unnamed", u, ind})
+			}
 			es := dfu.Edits(d)
 			for _, e := range es {
 				cs = append(cs, PCase{dn, "edits", []string{e.Name}, ind})
